@@ -165,6 +165,9 @@ func sortedFuncs(m map[*ssa.Function]bool) []*ssa.Function {
 func (w *World) CallersOf(fn *ssa.Function) []ssa.CallInstruction {
 	var out []ssa.CallInstruction
 	for _, f := range w.ModFuncs() {
+		if strings.HasPrefix(f.Synthetic, "wrapper for") {
+			continue // promoted-method wrappers are looked through by StaticCallee
+		}
 		eachInstr(f, func(in ssa.Instruction) {
 			if c := callOf(in); c != nil {
 				cal := StaticCallee(c)
